@@ -4,7 +4,7 @@
 id="$1"; tier="${2:-quick}"
 cd /verif
 if ! git -C /repo diff --quiet; then echo "/repo has local changes; refusing"; exit 2; fi
-git -C /repo apply "seeded/$id/patch.diff" || { echo "patch does not apply"; exit 2; }
+git -C /repo apply "/verif/seeded/$id/patch.diff" || { echo "patch does not apply"; exit 2; }
 out=$(./check "$id" --tier "$tier" 2>&1 | grep -E "^\[check\]|VIOLATION|KNOWN-FINDING" | cut -c1-220)
 git -C /repo checkout -- . 
 echo "$out"
